@@ -90,5 +90,6 @@ func init() {
 	// leakage-trace events are assembled by vlib/props/c08.py from leakfilter output
 	noop := func(ctx *Ctx, c Cmd, ev Ev) {}
 	register("leak.pair", noop)
+	register("pc.pair", noop)
 	register("leak.schedule", noop)
 }
